@@ -48,6 +48,8 @@ def run(ctx: Ctx) -> None:
     ctx.rule('C16.T4', 'operator closure and inverse: decreased_controller is increased_controller with the step negated; all neighbourhood operators go through '
              'modify_controller(circular=True), whose circular branch reduces the index modulo the controller size; every operator starts from set_configuration(current) '
              'and returns get_configuration()')
+    ctx.rule('C16.T6', 'layout writer <-> index reader: SegmentedParameters lists the generic parameters, then the parameters of each alternative in turn (outer loop over the alternatives, inner loop '
+             'over the parameters), which is the layout get_index / get_beta address')
     ctx.rule('C16.T5', 'selection: a catalog returns the member at the current index of its controller; a shared controller must list exactly the names of the catalog; '
              'set_configuration sets every controller by name and refuses unknown or missing ones')
     ctx.not_decided += ['equality of the configured formula value with the hand-written one (reduces to C01 through T1)']
@@ -399,6 +401,29 @@ return Configuration(_S)
     cfgc = E.methods['configure_catalogs']
     ok = 'self.central_controller.set_configuration(configuration)' in unparse(cfgc.node)
     ctx.add('C16.T5', 'Expression.configure_catalogs', ok, cfgc, 'configure_catalogs goes through the central controller' if ok else 'configure_catalogs changed', 'configure')
+    # layout writer <-> index reader of the generic / alternative-specific parameters
+    SP = prog.cls('catalog', 'SegmentedParameters')
+    spi, gi = SP.methods['__init__'], SP.methods['get_index']
+    bl = find(spi.node, """
+self.beta_parameters = _B
+self.all_parameters = _B.copy()
+self.alternatives = _A
+self.all_parameters += [Beta(f'{_X.name}_{_Y}', _X.initValue, _X.lb, _X.ub, _X.status) for __G1 in __IT1 for __G2 in __IT2]
+""")
+    br = find(gi.node, """
+if alternative is None:
+    return beta_index
+_K = self.alternatives.index(alternative)
+return beta_index + (_K + 1) * len(self.beta_parameters)
+""")
+    if bl is None or br is None:
+        ctx.add('C16.T6', 'SegmentedParameters:layout', None, spi, 'the construction of the parameter list or get_index is not in the expected form (generic parameters, then one block per alternative; index = beta_index + (alt_index + 1) * number of parameters)', 'layout')
+    else:
+        outer, inner = unparse(bl['__IT1'][1]), unparse(bl['__IT2'][1])
+        ok = outer in ('self.alternatives', bl['_A']) and inner in ('self.beta_parameters', bl['_B']) and unparse(bl['__G1'][1]) == bl['_Y'] and unparse(bl['__G2'][1]) == bl['_X']
+        ctx.add('C16.T6', 'SegmentedParameters:layout', ok, spi, 'the list holds the generic parameters, then one block per alternative; get_index addresses block alt_index + 1, entry beta_index' if ok else
+                f'the alternative-specific parameters are created by `for {unparse(bl["__G1"][1])} in {outer} for {unparse(bl["__G2"][1])} in {inner}`, i.e. one block per element of {outer}, but get_index reads entry '
+                'beta_index of the block of the alternative (beta_index + (alt_index + 1) * number of parameters): with two or more parameters the catalogs receive the parameter of another coefficient / alternative', f'{outer}/{inner}', positive=True)
     # note outside the stated property
     mr = CC.methods['modify_random_controllers']
     if 'the_modification = 1 if increase else 1' in unparse(mr.node):
